@@ -56,6 +56,46 @@ def load():
     return hz
 
 
+_REF = {}
+
+
+def zinc_ref(symbolic=True):
+    """the independent reference reader; instrumented when it has to run on symbolic text"""
+    key = 'sym' if symbolic else 'plain'
+    if key not in _REF:
+        import os
+        path = os.path.join(os.path.dirname(os.path.abspath(__file__)), 'spec', 'zinc_ref.py')
+        if symbolic and z3 is not None:
+            _REF[key] = instr.load_instrumented(path, 'symref_zinc')
+        else:
+            import importlib
+            _REF[key] = importlib.import_module('vf.spec.zinc_ref')
+    return _REF[key]
+
+
+def writer_vs_reference(hz, g, multi, symbolic):
+    """C04: dump with the real ZINC writer, read with the independent reference reader, compare.
+    -> (None | message, formula-or-True)"""
+    from . import neutral
+    ref = zinc_ref(symbolic)
+    txt = hz.dump([g, g] if multi else g, mode=hz.MODE_ZINC)
+    if len(txt) == 0 or not (txt[-1] == '\n'):
+        return 'document does not end with a newline', True
+    try:
+        trees = ref.parse_document(txt)
+    except ref.RefReject as e:
+        return 'the reference reader rejects the text (%s)' % e, True
+    if len(trees) != (2 if multi else 1):
+        return 'reference reader sees %d grids' % len(trees), True
+    want = neutral.to_neutral(hz, g)
+    f = True
+    for t in trees:
+        f = b_and(f, neutral.same(want, t, dict(ordered_dict=True)))
+    if f is False:
+        return 'the reference reader recovers a different grid', True
+    return None, f
+
+
 # ---------------------------------------------------------------------------
 # structural comparison of two values (original vs read back) as a formula
 def same(hz, a, b, opts):
@@ -309,6 +349,10 @@ def run_job(job):
             char_domain(ex, c, split if (i == 0 and split) else None)
             if kind in ALPHABET:
                 ex.assume(z3.Or(*[z3.And(c >= lo, c <= hi) for lo, hi in ALPHABET[kind]]))
+            if job.get('alphabet'):
+                ex.assume(z3.Or(*[c == ord(ch) for ch in job['alphabet']]))
+            if kind == 'xstrtype' and i == 0:
+                ex.assume(z3.Or(z3.And(c >= 65, c <= 90), z3.And(c >= 97, c <= 122)))   # a type name starts with a letter
             if kind == 'unit' and i == 0:
                 ex.assume(c != 95)      # a unit cannot start with '_' in ZINC: the digits production owns it (not a representable value)
             for reg in exclude:
@@ -322,6 +366,21 @@ def run_job(job):
             return ''.join(chr(m.eval(c, model_completion=True).as_long()) for c in cs)
         value = make_payload(hz, kind, s)
         g = build_grid(hz, position, value, version)
+        if assertion == 'zincref':
+            try:
+                with contextlib.redirect_stdout(io.StringIO()):
+                    msg, f = writer_vs_reference(hz, g, multi, True)
+            except Exception as e:
+                return ('cex', 'writer raised %s' % type(e).__name__, model())
+            stats['reached'] += 1
+            if msg is not None:
+                return ('cex', msg, model())
+            if f is not True and ex.check(z3.Not(fz(f))) == z3.sat:
+                ex.add(z3.Not(fz(f)))
+                return ('cex', 'the reference reader recovers a different grid', model())
+            if len(stats['samples']) < 2:
+                stats['samples'].append(model())
+            return ('ok',)
         try:
             with contextlib.redirect_stdout(io.StringIO()):
                 back, wire = dump_parse(hz, g, fmt, multi)
@@ -363,7 +422,7 @@ def run_job(job):
     return out
 
 
-def catalogue(hz, version):
+def catalogue(hz, version, extra=None):
     """boundary values of every non-text kind (concrete configurations; nothing symbolic)"""
     import datetime
     import pytz
@@ -383,6 +442,18 @@ def catalogue(hz, version):
             D.Coordinate(37.5, -122.25), D.Coordinate(-90, 180), D.Coordinate(0.123456, 0), D.Coordinate(-0.5, 0.000001),
             D.Ref('a-b.c:d~e_1'), D.Ref('x', 'dis play'), D.Ref('x', ''), D.Bin('text/plain'), D.Uri('http://a/b?c=d&e#f'), D.Uri(''),
             '', 'plain', 'n:1', 'T', '2020-01-01', u'\u20ac\U0001f600']
+    if extra == 'zones':
+        vals = []
+        for name in sorted(Z.get_tz_map().keys()):
+            vals.append(Z.timezone(name).localize(datetime.datetime(2021, 7, 1, 12, 0, 0)))
+            vals.append(Z.timezone(name).localize(datetime.datetime(2021, 1, 1, 0, 30, 0, 123456)))
+        return vals
+    if extra == 'times':
+        vals = []
+        for us in list(range(0, 1000000, 2477)) + [1, 9, 10, 99, 100, 999999, 500000, 100000, 249, 1019, 261327]:
+            vals.append(datetime.time(6, 30, us % 60, us))
+            vals.append(Z.timezone('Paris').localize(datetime.datetime(2021, 3, 4, 5, 6, us % 60, us)))
+        return vals
     if v3:
         ng = hz.Grid(version=version, columns=[('k', [])])
         ng.append({'k': 1})
@@ -400,7 +471,7 @@ def run_catalog(job):
     t0 = time.time()
     positions = job['positions']
     skip = set(job.get('skip_types', []))
-    for i, v in enumerate(catalogue(hz, job['version'])):
+    for i, v in enumerate(catalogue(hz, job['version'], job.get('extra'))):
         if type(v).__name__ in skip:
             continue
         for pos in positions:
@@ -415,6 +486,16 @@ def run_catalog(job):
 def check_concrete(hz, job, value, position):
     fmt, version = job['fmt'], job['version']
     multi = job.get('multi', False)
+    if job.get('assert') == 'zincref':
+        g = build_grid(hz, position, value, version)
+        try:
+            with contextlib.redirect_stdout(io.StringIO()):
+                msg, f = writer_vs_reference(hz, g, multi, False)
+        except Exception as e:
+            return 'writer raised %s: %s' % (type(e).__name__, str(e)[:200])
+        if msg is None and f is not True:
+            msg = 'the reference reader recovers a different grid'
+        return msg
     opts = dict(six_decimals=(fmt == 'json'), ordered_meta=True)
     g = build_grid(hz, position, value, version)
     mode = hz.MODE_ZINC if fmt == 'zinc' else hz.MODE_JSON
@@ -435,12 +516,23 @@ def check_concrete(hz, job, value, position):
         f = same_grid(hz, g, b, opts)
         if f is not True:
             return 'content differs: sent %r got back %r' % (list(g)[1], list(b)[1])
+    if fmt == 'json':
+        # the wire spelling of Remove follows the declared version (2.0: "x:", 3.0: "-:")
+        bad = '-:' if version.startswith('2') else 'x:'
+        def scan(t):
+            if isinstance(t, dict):
+                return any(scan(x) for x in t.values())
+            if isinstance(t, list):
+                return any(scan(x) for x in t)
+            return t == bad
+        if scan(json.loads(txt)):
+            return 'Remove written as %r in a ver %s document' % (bad, version)
     return None
 
 
 def replay_catalog(hz, job, payload):
     """payload = [index, position]"""
-    v = catalogue(hz, job['version'])[payload[0]]
+    v = catalogue(hz, job['version'], job.get('extra'))[payload[0]]
     return check_concrete(hz, job, v, payload[1])
 
 
